@@ -1323,20 +1323,24 @@ func (c *IPAMController) garbageCollectKnownLeaks() error {
 	// limit the number of concurrent IPs we attempt to release at once.
 	maxBatchSize := 10000
 
-	var opts []ipam.ReleaseOptions
-	leaks := map[string]*allocation{}
+	// First pass: final check that each allocation is still leaked.  This is done for all the candidates
+	// before any are selected for release, because resurrecting one allocation of a handle must prevent
+	// the release of the handle's other allocations (see the per-handle check below), whichever order
+	// the map yields them in.
 	for id, a := range c.confirmedLeaks {
-		logc := log.WithFields(a.fields())
-
-		// Final check that the allocation is leaked. We prefer the cache when the hosting node has been
-		// deleted, as we're reasonably confident this is a leak. Otherwise, we go to the API server directly for extra confidence
-		// that the Pod is actually gone.
+		// We prefer the cache when the hosting node has been deleted, as we're reasonably confident this is a
+		// leak. Otherwise, we go to the API server directly for extra confidence that the Pod is actually gone.
 		if c.allocationIsValid(a, a.knode == "") {
-			logc.Info("Leaked IP has been resurrected after querying latest state")
+			log.WithFields(a.fields()).Info("Leaked IP has been resurrected after querying latest state")
 			delete(c.confirmedLeaks, id)
 			a.markValid()
-			continue
 		}
+	}
+
+	var opts []ipam.ReleaseOptions
+	leaks := map[string]*allocation{}
+	for _, a := range c.confirmedLeaks {
+		logc := log.WithFields(a.fields())
 
 		// Ensure that all of the IPs with this handle are in fact leaked.
 		if !c.handleTracker.isConfirmedLeak(a.handle) {
